@@ -34,9 +34,9 @@ theorem optBody_name (e : List (List UInt8)) (l : List UInt8) (k : Bool) (fi : U
 theorem optBody_blank (e : List (List UInt8)) (l : List UInt8) (k : Bool) (fi : UInt8) (v cur ln : Nat) (b : UInt8)
     (hb : isBlank b = true) :
     optBody cfg (Stt e l k fi v cur ln) b = .more (Stt e l k fi v cur ln) := by
-  have hb' : b = 32 ∨ b = 9 := by simpa [isBlank] using hb
-  have h10 : b ≠ 10 := by rcases hb' with h | h <;> subst h <;> decide
-  have hsp : isspace b = true := by rcases hb' with h | h <;> subst h <;> decide
+  have hb' : b = 32 ∨ b = 9 ∨ b = 11 ∨ b = 12 ∨ b = 13 := by simpa [isBlank, or_assoc] using hb
+  have h10 : b ≠ 10 := by rcases hb' with h | h | h | h | h <;> subst h <;> decide
+  have hsp : isspace b = true := by rcases hb' with h | h | h | h | h <;> subst h <;> decide
   unfold optBody
   simp [hc.assign, h10, hsp]
 
@@ -76,9 +76,9 @@ theorem run_opt_blanks (e : List (List UInt8)) (fi : UInt8) (v cur ln : Nat) :
   | cons b r ih =>
     intro l h
     simp only [List.all_cons, Bool.and_eq_true] at h
-    have hb' : b = 32 ∨ b = 9 := by simpa [isBlank] using h.1
-    have h0 : b ≠ 0 := by rcases hb' with h | h <;> subst h <;> decide
-    have h10' : (b == 10) = false := by rcases hb' with h | h <;> subst h <;> decide
+    have hb' : b = 32 ∨ b = 9 ∨ b = 11 ∨ b = 12 ∨ b = 13 := by simpa [isBlank, or_assoc] using h.1
+    have h0 : b ≠ 0 := by rcases hb' with h | h | h | h | h <;> subst h <;> decide
+    have h10' : (b == 10) = false := by rcases hb' with h | h | h | h | h <;> subst h <;> decide
     simp only [runSteps, optStep, save_stt _ _ _ _ _ _ _ _ h0, addchar_keep, h10']
     rw [optBody_blank hc _ _ _ _ _ _ _ _ h.1]
     simp only [Bool.false_eq_true, ↓reduceIte]
@@ -174,9 +174,10 @@ structure SectStyle (k : Kind) (cfg : Cfg) (open_ close : List UInt8) : Prop ext
       ∧ (∃ l fi' v' ln', s' = Stt [n] l false fi' v' (Flag.section_ ||| Flag.name) ln')
       ∧ visSkip false J' = some false ∧ src'.rest = J' ++ rest
   /-- the header while a section is open: the opening character ends that section … -/
-  headEnd : ∀ (m : List UInt8) (s : St) (src : Src) (junk R : List UInt8),
-    Clean [m] s.path → s.valid = 0 → visSkip false junk = some false → src.rest = junk ++ open_ ++ R →
-    ∃ s1 src1, next k cfg 11 s src = (2, s1, src1) ∧ s1.path = s.path ∧ s1.curr = Flag.sectEnd ∧ src1.rest = R
+  headEnd : ∀ (m : List UInt8) (s : St) (src : Src) (prev : Nat) (junk R : List UInt8),
+    Clean [m] s.path → s.valid = 0 → (prev = 9 ∨ prev = 11) → visSkip false junk = some false →
+    src.rest = junk ++ open_ ++ R →
+    ∃ s1 src1, next k cfg prev s src = (2, s1, src1) ∧ s1.path = s.path ∧ s1.curr = Flag.sectEnd ∧ src1.rest = R
   /-- … and the next call reads the name -/
   headNext : ∀ (s : St) (src : Src) (n tr rest : List UInt8),
     Clean [] s.path → s.valid = 0 → nameOk n = true → headTrailOk tr = true →
@@ -185,9 +186,9 @@ structure SectStyle (k : Kind) (cfg : Cfg) (open_ close : List UInt8) : Prop ext
       ∧ (∃ l fi' v' ln', s' = Stt [n] l false fi' v' (Flag.section_ ||| Flag.name) ln')
       ∧ visSkip false J' = some false ∧ src'.rest = J' ++ rest
   /-- the text may end inside a section -/
-  eofOpen : ∀ (m : List UInt8) (s : St) (src : Src) (junk : List UInt8) (b : Bool),
-    Clean [m] s.path → visSkip false junk = some b → src.rest = junk →
-    ∃ s' src', next k cfg 11 s src = (0, s', src')
+  eofOpen : ∀ (m : List UInt8) (s : St) (src : Src) (prev : Nat) (junk : List UInt8) (b : Bool),
+    Clean [m] s.path → (prev = 9 ∨ prev = 11) → visSkip false junk = some b → src.rest = junk →
+    ∃ s' src', next k cfg prev s src = (0, s', src')
 
 /-! ### enclosed format with different start and end characters: options only -/
 
@@ -276,10 +277,10 @@ theorem trail_head (tr : List UInt8) (h : trailOk tr = true) :
       rcases h with h | h
       · simp only [List.all_cons, Bool.and_eq_true] at h; exact h.1
       · simp only [Bool.and_eq_true] at h; exact h.1
-    have hb' : t = 32 ∨ t = 9 := by simpa [isBlank] using ht
-    have h0 : (t == 0) = false := by rcases hb' with h | h <;> subst h <;> decide
-    have hsp : isspace t = true := by rcases hb' with h | h <;> subst h <;> decide
-    refine ⟨t, r ++ [10], rfl, hsp, by rcases hb' with h | h <;> subst h <;> decide, ?_⟩
+    have hb' : t = 32 ∨ t = 9 ∨ t = 11 ∨ t = 12 ∨ t = 13 := by simpa [isBlank, or_assoc] using ht
+    have h0 : (t == 0) = false := by rcases hb' with h | h | h | h | h <;> subst h <;> decide
+    have hsp : isspace t = true := by rcases hb' with h | h | h | h | h <;> subst h <;> decide
+    refine ⟨t, r ++ [10], rfl, hsp, by rcases hb' with h | h | h | h | h <;> subst h <;> decide, ?_⟩
     simp only [List.cons_append, visSkip, h0, hsp, Bool.false_eq_true, ↓reduceIte] at hall
     exact hall
 
@@ -458,11 +459,11 @@ theorem sectStyle_Bar : SectStyle .enc cfgBar [124] [] where
     simp only [next, parseFormatEnc]
     simp [hnv, hp2]
   eofOpen := by
-    intro m s src junk b _ hj hsrc
+    intro m s src prev junk b _ hprev hj hsrc
     obtain ⟨ln, src1, hnv, _⟩ := nextvis_end flatCfg_Bar.hash junk b s src hj hsrc
     refine ⟨{ s with line := ln, curr := 0 }, src1, ?_⟩
     simp only [next, parseFormatEnc]
-    have hp2 : ((11 : Nat) == Flag.sectEnd) = false := by decide
+    have hp2 : (prev == Flag.sectEnd) = false := by rcases hprev with h | h <;> subst h <;> decide
     simp [hnv, hp2]
   headFirst := by
     intro s src prev junk n tr rest hclean hv hprev hj hn htr hsrc
@@ -478,13 +479,14 @@ theorem sectStyle_Bar : SectStyle .enc cfgBar [124] [] where
     simp only [next, parseFormatEnc]
     simp [hp2, hnv, hem, hes]
   headEnd := by
-    intro m s src junk R hclean _ hj hsrc
+    intro m s src prev junk R hclean _ hprev hj hsrc
     obtain ⟨ln, src1, hnv, hr1⟩ := nextvis_skip flatCfg_Bar.hash junk 124 R s src hj (by decide) (by simpa using hsrc)
     have hem : s.path.elems.isEmpty = false := by rw [hclean.1]; rfl
     refine ⟨{ s with line := ln, curr := Flag.sectEnd }, src1, ?_, rfl, rfl, hr1⟩
     simp only [next, parseFormatEnc]
-    have hp2 : ((11 : Nat) == Flag.sectEnd) = false := by decide
-    simp [hp2, hnv, hem, Flag.sectEnd]
+    have hp2 : (prev == Flag.sectEnd) = false := by rcases hprev with h | h <;> subst h <;> decide
+    simp only [hp2, Bool.false_eq_true, ↓reduceIte, hnv, hem]
+    simp [Flag.sectEnd]
   headNext := by
     intro s src n tr rest hclean hv hn htr hsrc
     have hsrc' : src.rest = n ++ tr ++ 10 :: rest := by
@@ -629,11 +631,11 @@ theorem sectStyle_Sep : SectStyle .sep cfgS [91] [93] where
     simp only [next, parseFormatSep]
     simp [hnv, hp2]
   eofOpen := by
-    intro m s src junk b _ hj hsrc
+    intro m s src prev junk b _ hprev hj hsrc
     obtain ⟨ln, src1, hnv, _⟩ := nextvis_end flatCfg_S.hash junk b s src hj hsrc
     refine ⟨{ s with line := ln }, src1, ?_⟩
     simp only [next, parseFormatSep]
-    have hp2 : ((11 : Nat) &&& 0xf == Flag.sectEnd) = false := by decide
+    have hp2 : (prev &&& 0xf == Flag.sectEnd) = false := by rcases hprev with h | h <;> subst h <;> decide
     simp only [hp2, Bool.false_eq_true, ↓reduceIte, hnv]
     rfl
   headFirst := by
@@ -650,13 +652,14 @@ theorem sectStyle_Sep : SectStyle .sep cfgS [91] [93] where
     simp only [next, parseFormatSep]
     simp [hp2, hnv, hem, hes]
   headEnd := by
-    intro m s src junk R hclean _ hj hsrc
+    intro m s src prev junk R hclean _ hprev hj hsrc
     obtain ⟨ln, src1, hnv, hr1⟩ := nextvis_skip flatCfg_S.hash junk 91 R s src hj (by decide) (by simpa using hsrc)
     have hem : s.path.elems.isEmpty = false := by rw [hclean.1]; rfl
     refine ⟨{ s with line := ln, curr := Flag.sectEnd }, src1, ?_, rfl, rfl, hr1⟩
     simp only [next, parseFormatSep]
-    have hp2 : ((11 : Nat) &&& 0xf == Flag.sectEnd) = false := by decide
-    simp [hp2, hnv, hem, Flag.sectEnd]
+    have hp2 : (prev &&& 0xf == Flag.sectEnd) = false := by rcases hprev with h | h <;> subst h <;> decide
+    simp only [hp2, Bool.false_eq_true, ↓reduceIte, hnv, hem]
+    simp [Flag.sectEnd]
   headNext := by
     intro s src n tr rest hclean hv hn htr hsrc
     have hsrc' : src.rest = n ++ 93 :: ((tr ++ [10]) ++ rest) := by
